@@ -46,6 +46,9 @@ crash point than the code and the driver takes that step silently.  `openMsg` as
 file EXISTS (`d.body.isNone`), never how long it is: an empty body file is a stored body
 (`C02.C02_empty_body_recovered`).
 
+The retry schedule (`retryDelay`, `retryDue`, `restartDue`, end of this file): the instant `tryDelivery` / `readDiskQueue`
+put a message on the time wheel for, with the wrapping 64-bit product of the code.
+
 `max_parallelism`: the steps of different ids are independent except that `dispatch` needs one of the
 `max_parallelism` delivery slots, held until the attempt's last file-system call (and the
 re-scheduling that goes with it) is done; see `C02.SysReachPar` in Props/C02.
@@ -517,6 +520,34 @@ theorem listParse_listSer (m : SMeta) : listParse (listSer m) = some m := by
   | mk to tries nf => cases nf <;> simp [listSer, listParse, decTries_encTries]
 
 def listCodec : Codec := ⟨listSer, listParse, listParse_listSer⟩
+
+/-! ## the retry schedule: WHEN a stored message is due (`tryDelivery`, `readDiskQueue`)
+
+Instants and durations are integers (nanoseconds).  `time.Duration` is a 64-bit two's complement integer, so the
+product `q.initialRetryTime * scaleFactor` WRAPS (`wrap64`).  `scaleFactor := time.Duration(math.Pow(scale, tries-1))`:
+the float power and the float→integer conversion are library / hardware primitives — the converted value `conv` is a
+PARAMETER.  For a message without any recorded attempt `readDiskQueue` uses the sentinel 999999 as tries count: with a
+scale > 1 the power is +Inf, and the conversion of +Inf is implementation-defined in Go (`-2^63` on amd64, the platform
+the check runs on; `2^63-1` where the conversion saturates).  `time.Until` saturates at ±2^63 ns; for a post-init delay
+`0 ≤ post < 2^63` the saturated and the exact difference are on the same side of `post`, so the comparison is modelled
+on exact integers.  What the model does NOT say is how long a nanosecond takes: the tie to the code is the monitor that
+reads the real time wheel (`C02/retry-never-due`) and the T1 fingerprints of `tryDelivery` / `readDiskQueue`. -/
+
+def two63 : Int := 9223372036854775808
+def two64 : Int := 18446744073709551616
+
+/-- 64-bit two's complement wrap-around of an exact integer -/
+def wrap64 (x : Int) : Int := (x + two63) % two64 - two63
+
+/-- `q.initialRetryTime * scaleFactor` (Go: wrapping `int64` product) -/
+def retryDelay (init conv : Int) : Int := wrap64 (init * conv)
+
+/-- `tryDelivery`: `time.Now().Add(delay)` -/
+def retryDue (now delay : Int) : Int := now + delay
+
+/-- `readDiskQueue`: `meta.LastAttempt.Add(delay)`, but not before `now + postInitDelay` -/
+def restartDue (now last delay post : Int) : Int :=
+  if (last + delay) - now < post then now + post else last + delay
 
 /-! ## the spool directory: all ids together -/
 
